@@ -249,7 +249,9 @@ def check_typestate(ctx, P):
 
 
 def check_wait_counter(ctx, P):
-    fns = fdl_fns(P)
+    # the counter may be stepped by a private helper of the handler (`GapState::increment_wait`): read it in its caller's context
+    from analysis.inline import expanded_fns
+    fns = expanded_fns(P, fdl_fns(P))
     n = 0
     for f in fns:
         # wherever the wait counter is read or written (the token-pass handler or a helper it was split into)
@@ -394,18 +396,31 @@ def check_truthful(ctx, P):
         g = GuardAnalysis(v, P)
         tb = g.tb
         ntrue = 0
-        for b, i, t in return_terms(v, tb):
-            if t == ("const", True):
-                ntrue += 1
-                S = g.at(b, i)
-                def bit(name):
-                    return lambda k: "index(self.active_stations" in show(k) and show(k).rstrip(")").endswith("(" + name) or (
-                        "active_stations" in show(k) and ("from(%s)" % name) in show(k) and "Range" not in show(k))
-                ok1, w1 = M.all_disj(S, bit("sa"), {True})
-                ok2, w2 = M.all_disj(S, bit("da"), {True})
-                between = all(any("any(" in show(k) and vs == ("in", frozenset([False])) for k, vs in fs.items()) for fs in S)
-                ctx.ob("f.truthful", "verify-pass", ok1 and ok2 and between,
-                       "a token pass verifies the LAS without requiring source active, destination active and no active station in between: %s %s" % (w1, w2), v.loc(b, i))
+        r0 = tb.local_leaf(0)
+
+        def bit(name):
+            return lambda k: "index(self.active_stations" in show(k) and show(k).rstrip(")").endswith("(" + name) or (
+                "active_stations" in show(k) and ("from(%s)" % name) in show(k) and "Range" not in show(k))
+        # every path class on which the result can be `true` (a `return true`, or a boolean expression evaluating to true)
+        for rb in v.return_blocks:
+            S = frozenset(fs for fs in g.at(rb) if fs.get(r0) != ("in", frozenset([False])))
+            if not S:
+                continue
+            ntrue += len(S)
+            ok1, w1 = M.all_disj(S, bit("sa"), {True})
+            ok2, w2 = M.all_disj(S, bit("da"), {True})
+            def gaps_clear(fs):
+                anys = [(show(k), vs) for k, vs in fs.items() if "any(" in show(k)]
+                if not anys or any(vs != ("in", frozenset([False])) for _, vs in anys):
+                    return False
+                fwd = [vs for k, vs in fs.items() if k[0] == "cmp" and k[1] == "lt" and path_str(k[2]) == "sa" and path_str(k[3]) == "da"]
+                if fwd and fwd[0] == ("in", frozenset([True])):
+                    return any("Range::Range(" in t for t, _ in anys)  # the stations strictly between sa and da
+                # wrap-around: above sa and below da
+                return any("RangeFrom" in t for t, _ in anys) and any("RangeTo" in t for t, _ in anys)
+            between = all(gaps_clear(fs) for fs in S)
+            ctx.ob("f.truthful", "verify-pass", ok1 and ok2 and between,
+                   "a token pass verifies the LAS without requiring source active, destination active and no active station in between: %s %s" % (w1, w2), v.loc(rb))
         ctx.anchor("`true` results of verify_las_from_token_pass", ntrue, 1)
     rf = ctx.need_fn(CR, "fdl::token_ring::TokenRing::ready_for_ring")
     if rf is not None:
